@@ -412,6 +412,27 @@ func checkOp(sub string, c opCase) *vk.Failure {
 					fl = max(fl, kk.flavor)
 				}
 				g := genLogical(cGeneral, r, cdim, fl, c.Mode, false, x.rng)
+				anyUnit := false
+				for _, kk := range x.ks {
+					anyUnit = anyUnit || kk.unit
+				}
+				if anyUnit && fl >= fWell {
+					// A unit-diagonal operand replaces the dominant diagonal of the
+					// shared base by ones. Scale the off-diagonal part (by a power of
+					// two) so that the base stays strictly diagonally dominant, and an
+					// fSPD base positive definite, with a unit diagonal as well.
+					s := 1.0
+					for s < float64(4*max(r, cdim)) {
+						s *= 2
+					}
+					for a := 0; a < r; a++ {
+						for bb := 0; bb < cdim; bb++ {
+							if a != bb {
+								g.v[a*cdim+bb] /= s
+							}
+						}
+					}
+				}
 				if x.rng.Intn(3) == 0 {
 					// diagonal base: every structure class can represent it
 					for a := 0; a < r; a++ {
